@@ -26,7 +26,7 @@ def cfgs(ctx):
            F.base("c06-mod4", F.A3, l3, initups=[l3], exits=[["a"]], routeids=["r1", "r2", "r3"], cntmod=4, announcers=["a", "b"], dup=1)]
     if not ctx.quick():
         out.append(F.base("c06-mod2", F.A3, l3, initups=[l2], exits=[["a"]], routeids=["r1", "r2"], cntmod=2, announcers=["a"],
-                          maxann=2, conn=1, exp=1))
+                          maxann=1, conn=1, dup=1))
     return out
 
 
@@ -34,21 +34,26 @@ def run(ctx):
     runs = F.model(ctx, cfgs(ctx), emit=False)
     caught = F.sensitivity(ctx, DEVS)
     sizes = [0, 1, 254, 255, 256, 257, 300] if ctx.quick() else [0, 1, 2, 127, 254, 255, 256, 257, 300, 511, 512, 765, 1000]
-    tr = F.traces(ctx, "TestZZVFloodScale", {"ZZV_SIZES": ",".join(map(str, sizes))}, "c06scale", invs=SCALE_INVS)
+    # mix "short": only short routes, the route count (255) is the binding limit; mix "long": every domain pattern has
+    # ~250 characters, the frame payload (16 KiB) is the binding limit
+    long_sizes = [120, 300] if ctx.quick() else [60, 120, 254, 300, 512, 1000]
+    tr = F.traces(ctx, "TestZZVFloodScale", {"ZZV_SIZES": ",".join(map(str, sizes)), "ZZV_SIZES_LONG": ",".join(map(str, long_sizes))},
+                  "c06scale", invs=SCALE_INVS)
     F.report(ctx, "C06", None, [tr])
     scale = [r for r in tr["records"] if r.get("k") == "scale"]
     cases = [r for r in tr["records"] if r.get("k") == "scalecase"]
-    if len(scale) != 4 * len(sizes):
-        raise vf.Infra("scale harness reported %d of %d cases" % (len(scale), 4 * len(sizes)))
+    if len(scale) != 5 * (len(sizes) + len(long_sizes)):
+        raise vf.Infra("scale harness reported %d of %d cases" % (len(scale), 5 * (len(sizes) + len(long_sizes))))
     st, trn = F.coverage(runs)
     ctx.evidence("model_checking",
                  assumptions=["model: count field modulo 3 / 4 (2 in thorough) with up to 3 exit routes + presence; the real modulus 256 is "
-                              "exercised by the recorded executions with N = %s routes" % sizes,
+                              "exercised by the recorded executions with N = %s short routes (count-bound) and N = %s routes with ~250-character "
+                              "domain patterns (frame-size-bound)" % (sizes, long_sizes),
                               "route sets are mixed CIDR / exact and wildcard domain (some of 250 characters) / forward routes"],
-                 states=st, transitions=trn, traces_validated_against_impl=len(sizes), exhaustive=True,
+                 states=st, transitions=trn, traces_validated_against_impl=len(sizes) + len(long_sizes), exhaustive=True,
                  scale_cases=len(scale), scale_cases_equal=len([r for r in scale if r["missing"] == 0 and r["extra"] == 0]),
-                 announce_frames={str(c["n"]): c["announce_frames"] for c in cases},
+                 announce_frames={"%s/%s" % (c["n"], c["mix"]): c["announce_frames"] for c in cases},
                  trace_events=tr["summary"]["events"], trace_highwater=tr["v"]["hw"], trace_accepted=tr["v"]["accepted"],
                  deviations_caught=caught,
-                 samples=[{"n": r["n"], "stage": r["stage"], "node": r["node"], "announced": r["announced"], "learned": r["learned"]}
+                 samples=[{"n": r["n"], "mix": r["mix"], "stage": r["stage"], "node": r["node"], "announced": r["announced"], "learned": r["learned"]}
                           for r in scale[:12]])
